@@ -1,5 +1,5 @@
 CONSTANT Cfgs <- TraceCfgs
 SPECIFICATION TSpec
-INVARIANTS TTypeOK ChannelOk WriteBound LineBound InnerBound
+INVARIANTS TTypeOK ChannelOk WriteBound RefusedIdle LineBound InnerBound
 POSTCONDITION TraceAccepted
 CHECK_DEADLOCK FALSE
